@@ -209,11 +209,11 @@ func WriteToFile(bs []byte, filepath string) error {
 		return fmt.Errorf("error on open file: %w", err)
 	}
 
-	importedBs, err := imports.Process("", bs, nil)
+	importedBs, fmtErr := imports.Process("", bs, nil)
 	// bs, err := format.Source(bb.Bytes())
-	if err != nil {
-		// return fmt.Errorf("error on format go source: %w", err)
-		log.Printf("Error on format go source (%s): %v", filepath, err)
+	if fmtErr != nil {
+		// the unformatted text is still written, to help finding the problem
+		log.Printf("Error on format go source (%s): %v", filepath, fmtErr)
 	} else {
 		bs = importedBs
 	}
@@ -226,6 +226,9 @@ func WriteToFile(bs []byte, filepath string) error {
 	err = f.Close()
 	if err != nil {
 		return fmt.Errorf("error on close file: %w", err)
+	}
+	if fmtErr != nil {
+		return fmt.Errorf("error on format go source (%s): %w", filepath, fmtErr)
 	}
 	return nil
 }
